@@ -394,7 +394,7 @@ PROPS = {
     "C07": {"theorems": ["C07_cycles_detected", "C07_only_cycle_errors", "C07_terminates", "C07_machine_refines_dfs", "C07_solve_terminates", "C07_checker_graph_covers_planner_graph", "C07_accepted_sets_acyclic_for_planner"],
             "engines": [eng_synth, eng_prog],
             "assumptions": [SYNTH_NOTE, "wall-clock behaviour is runtime, sampled on lattices/chains only"]},
-    "C08": {"theorems": ["C08_unused_reported_exactly", "C08_called_is_used", "C08_used_have_source"], "engines": [eng_synth, eng_prog], "assumptions": [SYNTH_NOTE]},
+    "C08": {"theorems": ["C08_used_exactly", "C08_unused_reported_exactly", "C08_called_is_used", "C08_used_have_source"], "engines": [eng_synth, eng_prog], "assumptions": [SYNTH_NOTE]},
     "C09": {"theorems": ["C09_results", "C09_rejects", "C09_identical_types_rejected"], "engines": [eng_funcoutput, eng_prog],
             "assumptions": ["result kinds are abstracted to what funcOutput can distinguish (identity with error / func())"]},
     "C10": {"theorems": ["C10_phase_order_independent", "C05_never_picks"], "engines": [eng_synth, eng_prog], "assumptions": [SYNTH_NOTE]},
